@@ -166,6 +166,20 @@ func (c *inlCtx) list(in []ast.Stmt) []ast.Stmt {
 			next = in[i+1]
 		}
 		c.exprRewrites(s)
+		if ls, isLabeled := s.(*ast.LabeledStmt); isLabeled {
+			// the labelled statement itself may be the call statement: the label moves to the first statement that replaces it
+			if repl, usedNext, ok := c.tryStmt(ls.Stmt, next); ok {
+				if len(repl) == 0 {
+					repl = []ast.Stmt{&ast.EmptyStmt{Semicolon: ls.Pos(), Implicit: false}}
+				}
+				repl[0] = &ast.LabeledStmt{Label: ls.Label, Colon: ls.Colon, Stmt: repl[0]}
+				out = append(out, repl...)
+				if usedNext {
+					i++
+				}
+				continue
+			}
+		}
 		if repl, usedNext, ok := c.tryStmt(s, next); ok {
 			out = append(out, repl...)
 			if usedNext {
